@@ -301,6 +301,14 @@ PROPS["C09"] = {
                 wallclock_fps=["C09/message-never-observed"])],
 }
 
+# The thorough tier has to complete within a session for all twenty properties (several units run under more than one
+# property): the per-shard case counts of the large units are halved, which keeps every property under about ten minutes
+# on 16 cores.
+for _spec in PROPS.values():
+    for _u in _spec["units"]:
+        if _u.get("kind", "rapid") == "rapid" and "thorough" in _u and _u["thorough"]["checks"] >= 6000:
+            _u["thorough"] = dict(_u["thorough"], checks=_u["thorough"]["checks"] // 2)
+
 def setup():
     """MANIFEST.setup_cmd: create stubs and warm the build cache for every harness binary."""
     work = os.path.join(vdriver.WORKROOT, "setup-%d" % os.getpid())
